@@ -131,6 +131,22 @@ fn craft_tree(src: &Path, craft: u32) {
                 "<array><string>nested</string><string>nest/glyphs.n</string></array></array>\n</plist>",
             );
         }
+        10 => {
+            // a layer directory one level up, really present beside the source: the load succeeds and
+            // Layer.path must keep the last component only (a save elsewhere must stay inside its target)
+            let sib = src.parent().unwrap().join("sib.glyphs");
+            std::fs::create_dir_all(&sib).unwrap();
+            std::fs::write(
+                sib.join("contents.plist"),
+                "<?xml version=\"1.0\" encoding=\"UTF-8\"?>\n<plist version=\"1.0\"><dict></dict></plist>\n",
+            )
+            .unwrap();
+            edit(
+                &src.join("layercontents.plist"),
+                "</array>\n</plist>",
+                "<array><string>sibling</string><string>../sib.glyphs</string></array></array>\n</plist>",
+            );
+        }
         _ => {}
     }
 }
